@@ -134,8 +134,8 @@ func init() {
 	})
 	property(&Property{
 		ID:      "C08",
-		Rules:   []string{"T1", "T2", "T5", "T6", "T9", "OM-model", "T-pairs", "T-banned", "T-compat", "OM-model-deep"},
-		Explain: "T-banned: allowedConstraintCheck rejects exactly the combinations format rule + minLength/maxLength/regex and any + const, decided from the rules present on the node. T-compat: checkCompatibilityOfConstraints rejects a plain node iff one of its rules does not apply to its kind, whatever other rules are present. T-pairs: checkPairConstraints runs the pair check that applies to a plain JSON kind and all three on nodes whose kind does not decide (rule-sets of an or rule are compiled on nodes of kind mixed). T1: the applicability matrix — IsJsonTypeCompatible of every constraint type evaluated on every JSON kind equals the matrix the property states (numeric rules on numbers, precision on float, length/regex/format rules on strings, item counts on arrays, additionalProperties/allOf on objects). T2: every rule name builds the constraint of that name, unknown names are rejected. T5: paired bounds are accepted iff min<=max (strictly when either is exclusive), minLength<=maxLength, minItems<=maxItems. T6: exclusive flags without their bound are rejected. T9 + OM-model: the false-rule filter removes exactly nullable:false/const:false, and the ordered map's Filter visits every entry exactly once whatever is removed — the source of the order dependence named in the property.",
+		Rules:   []string{"T1", "T2", "T5", "T6", "T9", "OM-model", "T-pairs", "T-banned", "T-compat", "OM-model-deep", "OR-6"},
+		Explain: "OR-6: the pair comparison runs after the exclusive flags are folded into their bounds, so that strictness applies (T5 and T6 decide the two steps, OR-6 their order). T-banned: allowedConstraintCheck rejects exactly the combinations format rule + minLength/maxLength/regex and any + const, decided from the rules present on the node. T-compat: checkCompatibilityOfConstraints rejects a plain node iff one of its rules does not apply to its kind, whatever other rules are present. T-pairs: checkPairConstraints runs the pair check that applies to a plain JSON kind and all three on nodes whose kind does not decide (rule-sets of an or rule are compiled on nodes of kind mixed). T1: the applicability matrix — IsJsonTypeCompatible of every constraint type evaluated on every JSON kind equals the matrix the property states (numeric rules on numbers, precision on float, length/regex/format rules on strings, item counts on arrays, additionalProperties/allOf on objects). T2: every rule name builds the constraint of that name, unknown names are rejected. T5: paired bounds are accepted iff min<=max (strictly when either is exclusive), minLength<=maxLength, minItems<=maxItems. T6: exclusive flags without their bound are rejected. T9 + OM-model: the false-rule filter removes exactly nullable:false/const:false, and the ordered map's Filter visits every entry exactly once whatever is removed — the source of the order dependence named in the property.",
 		Assume: []string{
 			"companion-rule exclusivity counts (or / enum / any / type references with foreign rules), duplicate-rule detection and order independence beyond the filter are not decided",
 		},
@@ -146,8 +146,8 @@ func init() {
 	})
 	property(&Property{
 		ID:      "C10",
-		Rules:   []string{"SA-N", "FL-1", "FL-2", "EE-1", "T3", "T-cmp"},
-		Explain: "SA-N: the automaton of the numeral recogniser behind NewNumber (state functions interpreted abstractly, counters abstracted) is compared by product construction with the RFC 8259 number automaton over all 256 bytes in every reachable state pair, including where a numeral may end. FL-1: no library function holds a floating-point value or calls strconv float conversions/math/big (the only float helper, Number.ToFloat, has no library caller). T3: bounds are compared only through the exact comparison (Number.Cmp as an ordering atom) with the correct comparator.",
+		Rules:   []string{"SA-N", "FL-1", "FL-2", "EE-1", "T3", "T-cmp", "NZ-1"},
+		Explain: "NZ-1: the function that builds an exact Number clears the sign when no significant digit is left, so negative zero equals zero under the sign-first comparison. SA-N: the automaton of the numeral recogniser behind NewNumber (state functions interpreted abstractly, counters abstracted) is compared by product construction with the RFC 8259 number automaton over all 256 bytes in every reachable state pair, including where a numeral may end. FL-1: no library function holds a floating-point value or calls strconv float conversions/math/big (the only float helper, Number.ToFloat, has no library caller). T3: bounds are compared only through the exact comparison (Number.Cmp as an ordering atom) with the correct comparator.",
 		Assume: []string{
 			"correctness of the digit-string comparison and of exponent folding/zero trimming (arithmetic over unbounded digit strings), including negative zero, is not decided",
 		},
@@ -208,8 +208,8 @@ func init() {
 	})
 	property(&Property{
 		ID:      "C03",
-		Rules:   []string{"T10", "T-tree", "T-list", "T-object", "T-any", "AL-1", "VIS-allof", "VF-1", "NU-1", "T-tree-deep"},
-		Explain: "NU-1: anonymous or-item types are named after their own schema object, so the anonymous types of several user types cannot collide when they are hoisted into one root. VF-1: a validator has no slot for other validators except its parent link: child validators are made for one value and handed to the tree. VIS-*: the recursive walks (schema checker, allOf compiler, used-type collector) and the loops over the type table reach every child and every type — the visiting call is on every path through the loop body and the loop on every path to a normal return, the only bypasses being a failed comma-ok test and loop exhaustion. T10: the additionalProperties dispatch — rule text to mode (any/true, false, @type, a schema type name, anything else rejected) and mode to validator (any value / reject the key / kind check for object, array, scalar / the named type's validators), exhaustive over the declared modes. T-tree: union semantics of candidate validators — every live candidate receives each lexeme and a position is rejected only when every candidate failed (1..3 candidates x all outcomes). T-object: an unknown key is offered to the key shortcuts, then to additionalProperties, else rejected. T-any: additionalProperties any swallows one whole value.",
+		Rules:   []string{"T10", "T-tree", "T-list", "T-object", "T-any", "AL-1", "VIS-allof", "VF-1", "NU-1", "T-tree-deep", "T-apeq", "KS-1"},
+		Explain: "T-apeq: two additionalProperties rules count as the same (no allOf conflict) only when mode, schema type and type name were all found equal. KS-1: matching a document key against key shortcuts does not depend on which keys are still owed, so a shortcut admits any number of keys. NU-1: anonymous or-item types are named after their own schema object, so the anonymous types of several user types cannot collide when they are hoisted into one root. VF-1: a validator has no slot for other validators except its parent link: child validators are made for one value and handed to the tree. VIS-*: the recursive walks (schema checker, allOf compiler, used-type collector) and the loops over the type table reach every child and every type — the visiting call is on every path through the loop body and the loop on every path to a normal return, the only bypasses being a failed comma-ok test and loop exhaustion. T10: the additionalProperties dispatch — rule text to mode (any/true, false, @type, a schema type name, anything else rejected) and mode to validator (any value / reject the key / kind check for object, array, scalar / the named type's validators), exhaustive over the declared modes. T-tree: union semantics of candidate validators — every live candidate receives each lexeme and a position is rejected only when every candidate failed (1..3 candidates x all outcomes). T-object: an unknown key is offered to the key shortcuts, then to additionalProperties, else rejected. T-any: additionalProperties any swallows one whole value.",
 		Assume: []string{
 			"which validators a types list expands to (transitive expansion, de-duplication by name), allOf inheritance and the matching of a key against a shortcut's string type are not decided",
 		},
@@ -232,8 +232,8 @@ func init() {
 	})
 	property(&Property{
 		ID:      "C09",
-		Rules:   []string{"UC-1", "OR-2", "VIS-collect", "OR-3", "OR-4", "OR-5"},
-		Explain: "OR-5: a set whose hit is reported as recursion is unwound after the descent, so acyclic diamonds are not mistaken for cycles. OR-4: wherever a function resolves a user type through a type table and descends into it with a call that can come back, a lookup in a visited set or counter dominates the descent (a cycle of type references would otherwise overflow the stack). OR-3: the used-type list is read off the loaded tree inside the once-only loader, before CompileBasic, on every call chain that reaches the walk. VIS-*: the recursive walks (schema checker, allOf compiler, used-type collector) and the loops over the type table reach every child and every type — the visiting call is on every path through the loop body and the loop on every path to a normal return, the only bypasses being a failed comma-ok test and loop exhaustion. UC-1: in the functions reachable from the used-type collector and from the link checker (callback-aware call graph), each carrier of a user-type reference is consulted: the types list (type shortcuts, or), the type rule, allOf, additionalProperties with a user type, key shortcuts and mixed shortcut values; allOf parents are resolved against the type table when inherited properties are copied.",
+		Rules:   []string{"UC-1", "OR-2", "VIS-collect", "OR-3", "OR-4", "OR-5", "OR-7"},
+		Explain: "OR-7: the recursion checker descends into a type with the same table of types it found the type in (known finding K8: it hands down the type's own table, so cycles through two or more types go unnoticed). OR-5: a set whose hit is reported as recursion is unwound after the descent, so acyclic diamonds are not mistaken for cycles. OR-4: wherever a function resolves a user type through a type table and descends into it with a call that can come back, a lookup in a visited set or counter dominates the descent (a cycle of type references would otherwise overflow the stack). OR-3: the used-type list is read off the loaded tree inside the once-only loader, before CompileBasic, on every call chain that reaches the walk. VIS-*: the recursive walks (schema checker, allOf compiler, used-type collector) and the loops over the type table reach every child and every type — the visiting call is on every path through the loop body and the loop on every path to a normal return, the only bypasses being a failed comma-ok test and loop exhaustion. UC-1: in the functions reachable from the used-type collector and from the link checker (callback-aware call graph), each carrier of a user-type reference is consulted: the types list (type shortcuts, or), the type rule, allOf, additionalProperties with a user type, key shortcuts and mixed shortcut values; allOf parents are resolved against the type table when inherited properties are copied.",
 		Assume: []string{
 			"the recursion decision (a least fix-point over arbitrary type graphs), termination of Check/Validate/Example, and exactness/de-duplication of UsedUserTypes are NOT decided by any rule here",
 		},
